@@ -574,6 +574,8 @@ RunRecipe(s, b, rc, v) ==
   IF ~Ok(s) THEN [s |-> s, node |-> 0] ELSE
   CASE rc.r = "pick"  -> [s |-> s, node |-> rc.alts[v[2] + 1]]
     [] rc.r = "ref"   -> [s |-> s, node |-> v[2]]
+    [] rc.r = "foreign" ->  \* a node of another state: assert!(weak_thin_ptr_eq(..)) (node.rs:710)
+         [s |-> Fail(s, "panic:assert_foreign"), node |-> 0]
     [] rc.r = "const" -> LET s1 == NewNode(s, [k |-> "const", init |-> v], b)
                          IN [s |-> s1, node |-> s1.n]
     [] rc.r = "map"   -> LET s1 == NewNode(s, [k |-> "map", f |-> rc.f, cap |-> v,
@@ -596,6 +598,24 @@ RunRecipe(s, b, rc, v) ==
              \* the only handle is dropped at once: the Rc dies, weak references dangle
              s1 == [j.s EXCEPT !.junk = @ \cup {j.node}, !.rel = @ \cup {j.node}]
          IN RunRecipe(s1, b, rc.then, v)
+    [] rc.r = "memo"  ->   \* call the memoised function rc.m with key v (public.rs:342-378)
+         LET mm == s.memos[rc.m]
+             hit == \E i \in 1..Len(mm.table) : mm.table[i].key = v /\ Alive(s, mm.table[i].node)
+         IN IF hit THEN [s |-> s, node |-> mm.table[CHOOSE i \in 1..Len(mm.table) :
+                                                     mm.table[i].key = v /\ Alive(s, mm.table[i].node)].node]
+            ELSE \* within_scope(creation_scope): panics if that scope is invalid
+                 IF mm.scope # 0 /\ ~(Alive(s, s.def[mm.scope].main) /\ s.valid[s.def[mm.scope].main])
+                 THEN [s |-> Fail(s, "panic:invalid_scope"), node |-> 0] ELSE
+                 LET s0 == [s EXCEPT !.memoLog = Append(@, [m |-> rc.m, key |-> v]), !.curScope = mm.scope]
+                     s1 == IF mm.f = "const"
+                           THEN NewNode(s0, [k |-> "const", init |-> v], mm.scope)
+                           ELSE NewNode(s0, [k |-> "map", f |-> mm.f, cap |-> v, ins |-> <<mm.over>>,
+                                             eff |-> <<>>], mm.scope)
+                     tb == SelectSeq(mm.table, LAMBDA r : r.key # v)
+                 IN IF ~Ok(s1) THEN [s |-> s1, node |-> 0] ELSE
+                    [s |-> [s1 EXCEPT !.memos[rc.m].table = Append(tb, [key |-> v, node |-> s1.n]),
+                                      !.curScope = s.curScope],
+                     node |-> s1.n]
     [] rc.r = "leak"  ->   \* hand the node built by rc.then to the harness
          LET j == RunRecipe(s, b, rc.then, v)
          IN [s |-> [j.s EXCEPT !.leaked = Append(@, j.node)], node |-> j.node]
@@ -961,7 +981,7 @@ StabiliseBegin(s) ==
   LET s1 == [s EXCEPT !.status = "stabilising", !.round = @ + 1,
                       !.inv = <<>>, !.cutLog = <<>>, !.cbLog = <<>>, !.obsLog = <<>>,
                       !.invLog = <<>>, !.readLog = <<>>, !.dlv = <<>>, !.order = <<>>,
-                      !.rhsLog = <<>>,
+                      !.rhsLog = <<>>, !.memoLog = <<>>,
                       !.envAtStart = s.cell, !.subsAtBegin = s.osubs]
       s2 == AddNewObservers([s1 EXCEPT !.newObs = <<>>], s1.newObs, 1)
   IN UnlinkDisallowed([s2 EXCEPT !.disObs = <<>>], s2.disObs, 1)
@@ -1053,8 +1073,17 @@ StabiliseHandlersStep(s) ==
                   todo \ {o})
   IN IF ~Alive(s1, e.n) THEN s1 ELSE Each(s1, obs)
 
+\* weak maps are garbage collected (state.rs:345-348), then status := NotStabilising
 StabiliseFinish(s) ==
-  IF ~Ok(s) THEN s ELSE [s EXCEPT !.status = "idle"]
+  IF ~Ok(s) THEN s ELSE
+  [s EXCEPT !.status = "idle",
+            \* ghost logs of the round are consumed by now: clear them so quiescent states coincide
+            !.inv = <<>>, !.cutLog = <<>>, !.cbLog = <<>>, !.obsLog = <<>>, !.invLog = <<>>,
+            !.readLog = <<>>, !.dlv = <<>>, !.order = <<>>, !.rhsLog = <<>>, !.memoLog = <<>>,
+            !.lastRan = [n \in 1..s.n |-> 0], !.lastChg = [n \in 1..s.n |-> 0],
+            !.subsAtBegin = <<>>, !.popped = 0, !.chainFrom = 0, !.running = 0,
+            !.memos = [i \in 1..Len(s.memos) |->
+                         [s.memos[i] EXCEPT !.table = SelectSeq(@, LAMBDA r : Alive(s, r.node))]]]
 
 \* is_stable (state.rs:352-356)
 IsStable(s) == s.rchLen = 0 /\ s.deadVars = <<>> /\ s.newObs = <<>>
@@ -1067,7 +1096,7 @@ InitState(maxH) ==
    scope |-> <<>>, cutoff |-> <<>>, force |-> <<>>, nobs |-> <<>>, numH |-> <<>>,
    inHas |-> <<>>, mrDid |-> <<>>, rhs |-> <<>>, created |-> <<>>, gen |-> <<>>, born |-> <<>>,
    edges |-> <<>>, fstale |-> <<>>, ninv |-> <<>>, fireAll |-> <<>>,
-   xprev |-> <<>>, xstore |-> <<>>, xdeps |-> <<>>, ne |-> 0, xdead |-> {}, poisoned |-> FALSE,
+   xprev |-> <<>>, xstore |-> <<>>, xdeps |-> <<>>, ne |-> 0, xdead |-> {}, poisoned |-> FALSE, handles |-> {}, vhandles |-> {}, memos |-> <<>>, memoLog |-> <<>>,
    setAt |-> <<>>, cell |-> <<>>, pend |-> <<>>,
    \* observers
    no |-> 0, onode |-> <<>>, ostate |-> <<>>, osubs |-> <<>>, onext |-> <<>>, oclones |-> <<>>,
@@ -1107,6 +1136,9 @@ ApiZip(s, a, b) ==
 ApiDependOn(s, a, on) ==
   LET s1 == NewNode(s, [k |-> "map2", f |-> "fst", ins |-> <<a, on>>, silent |-> TRUE], s.curScope) IN
   IF Ok(s1) THEN [s1 EXCEPT !.cutoff[s1.n] = [c |-> "dep", in |-> a]] ELSE s1
+\* IncrState::weak_memoize_fn: the function remembers the scope it was created in
+ApiMemoNew(s, f, over) ==
+  [s EXCEPT !.memos = Append(@, [f |-> f, over |-> over, scope |-> s.curScope, table |-> <<>>])]
 \* expert::Node::new (state/expert.rs:8-31) in the current scope
 ApiExpert(s, f) == NewNode(s, [k |-> "expert", f |-> f], s.curScope)
 \* Node::add_dependency(_with) called outside stabilise (construction time)
@@ -1159,5 +1191,13 @@ ApiSetMaxHeight(s, new) ==
 \* a panic that escaped a public call was caught by the caller: the engine state stays as the
 \* unwinding left it (in particular `status`), the caller carries on
 Recover(s) == [s EXCEPT !.panic = "", !.poisoned = TRUE, !.chain = 0]
+\* user-held handles (ownership model, C12): the harness keeps a handle to every node an API call
+\* returns (not to lhs_change nodes, not to bind-created nodes unless leaked) until it drops it
+Hold(s, n) == IF Ok(s) THEN [s EXCEPT !.handles = @ \cup {n}] ELSE s
+HoldVar(s, n) == IF Ok(s) THEN [s EXCEPT !.handles = @ \cup {n}, !.vhandles = @ \cup {n}] ELSE s
+ApiDropHandle(s, n) == [s EXCEPT !.handles = @ \ {n}]
+\* Drop for public::Var (public.rs:272-295): the last handle queues the var for break_rc_cycle
+ApiDropVar(s, v) ==
+  [s EXCEPT !.vhandles = @ \ {v}, !.handles = @ \ {v}, !.deadVars = Append(@, v)]
 ApiClearLogs(s) == [s EXCEPT !.retLog = <<>>]
 =============================================================================
